@@ -43,17 +43,31 @@ Definition C08_meaning_preserved_full_statement : Prop :=
 Theorem C08_meaning_preserved_refuted : ~ C08_meaning_preserved_full_statement.
 Proof. exact meaning_preserved_full_refuted. Qed.
 
-(* With the known class excluded ([supported_nonull]: supported and no visited
-   node has the null instance type) the clause holds, for every schema, every
+(* Independently of the null type (known finding K6): an integer schema whose
+   minimum/maximum/multipleOf is not an integer inside i64 (reachable with
+   #[schemars(range(min = 0.5))] on an integer field) is altered by the
+   converter's [f64 as i64]: {type: integer, minimum: 0.5} is published with
+   minimum 0 and accepts 0. *)
+Definition C08_meaning_preserved_nonull_statement : Prop :=
+  forall env pat_ok fmt_ok s name o,
+    supported_with false true s = true -> j2oas name s = Ok o ->
+    forall j, valid_oas env pat_ok fmt_ok o j = valid_js env pat_ok fmt_ok s j.
+
+Theorem C08_fractional_integer_bound_refuted : ~ C08_meaning_preserved_nonull_statement.
+Proof. exact fractional_integer_bound_refuted. Qed.
+
+(* With the known classes excluded ([supported_faithful]: supported, no visited
+   node has the null instance type, and integer bounds are integers inside
+   i64) the clause holds, for every schema, every
    instance, every interpretation of references, patterns and formats. *)
 Theorem C08_meaning_preserved :
   forall env pat_ok fmt_ok s name o,
-    supported_nonull s = true -> j2oas name s = Ok o ->
+    supported_faithful s = true -> j2oas name s = Ok o ->
     forall j, valid_oas env pat_ok fmt_ok o j = valid_js env pat_ok fmt_ok s j.
 Proof. exact meaning_preserved. Qed.
 
-Theorem C08_nonull_is_supported : forall s, supported_nonull s = true -> supported s = true.
-Proof. exact supported_nonull_supported. Qed.
+Theorem C08_faithful_is_supported : forall s, supported_faithful s = true -> supported s = true.
+Proof. exact supported_faithful_supported. Qed.
 
 (* the same for a whole document: the schema at a site read with the published
    components against the type's schema read with its definitions ("nested and
@@ -61,7 +75,7 @@ Proof. exact supported_nonull_supported. Qed.
 Theorem C08_document_meaning_preserved :
   forall pat_ok fmt_ok defs comps s name o fuel,
     comps_of_defs defs comps ->
-    supported_nonull s = true -> j2oas name s = Ok o ->
+    supported_faithful s = true -> j2oas name s = Ok o ->
     forall j, valid_oas (env_oas pat_ok fmt_ok fuel comps) pat_ok fmt_ok o j
               = valid_js (env_js pat_ok fmt_ok fuel defs) pat_ok fmt_ok s j.
 Proof. exact document_meaning_preserved. Qed.
@@ -69,49 +83,49 @@ Proof. exact document_meaning_preserved. Qed.
 (* "No constraint is dropped or altered": each named constraint of the type's
    schema is enforced by the published schema ... *)
 Corollary C08_required_kept :
-  forall env pat_ok fmt_ok so name o, supported_nonull (SObj so) = true -> j2oas name (SObj so) = Ok o ->
+  forall env pat_ok fmt_ok so name o, supported_faithful (SObj so) = true -> j2oas name (SObj so) = Ok o ->
     so_reference so = None ->
     forall ov kvs k, so_object so = Some ov -> valid_oas env pat_ok fmt_ok o (JObj kvs) = true ->
                      In k (ov_required ov) -> has_key k kvs = true.
 Proof. exact required_enforced. Qed.
 
 Corollary C08_enum_kept :
-  forall env pat_ok fmt_ok so name o, supported_nonull (SObj so) = true -> j2oas name (SObj so) = Ok o ->
+  forall env pat_ok fmt_ok so name o, supported_faithful (SObj so) = true -> j2oas name (SObj so) = Ok o ->
     so_reference so = None ->
     forall l j, so_enum_values so = Some l -> valid_oas env pat_ok fmt_ok o j = true ->
                 is_null j = false -> json_mem j l = true.
 Proof. exact enum_enforced. Qed.
 
 Corollary C08_numeric_bounds_kept :
-  forall env pat_ok fmt_ok so name o, supported_nonull (SObj so) = true -> j2oas name (SObj so) = Ok o ->
+  forall env pat_ok fmt_ok so name o, supported_faithful (SObj so) = true -> j2oas name (SObj so) = Ok o ->
     so_reference so = None ->
     forall nv n, so_number so = Some nv -> valid_oas env pat_ok fmt_ok o (JNum n) = true ->
                  valid_numval nv (JNum n) = true.
 Proof. exact numeric_bounds_enforced. Qed.
 
 Corollary C08_length_limits_kept :
-  forall env pat_ok fmt_ok so name o, supported_nonull (SObj so) = true -> j2oas name (SObj so) = Ok o ->
+  forall env pat_ok fmt_ok so name o, supported_faithful (SObj so) = true -> j2oas name (SObj so) = Ok o ->
     so_reference so = None ->
     forall sv s, so_string so = Some sv -> valid_oas env pat_ok fmt_ok o (JStr s) = true ->
                  valid_strval pat_ok sv (JStr s) = true.
 Proof. exact length_limits_enforced. Qed.
 
 Corollary C08_item_limits_and_item_schemas_kept :
-  forall env pat_ok fmt_ok so name o, supported_nonull (SObj so) = true -> j2oas name (SObj so) = Ok o ->
+  forall env pat_ok fmt_ok so name o, supported_faithful (SObj so) = true -> j2oas name (SObj so) = Ok o ->
     so_reference so = None ->
     forall av l, so_array so = Some av -> valid_oas env pat_ok fmt_ok o (JArr l) = true ->
                  valid_arrval (valid_js env pat_ok fmt_ok) av (JArr l) = true.
 Proof. exact items_enforced. Qed.
 
 Corollary C08_property_schemas_and_additional_properties_kept :
-  forall env pat_ok fmt_ok so name o, supported_nonull (SObj so) = true -> j2oas name (SObj so) = Ok o ->
+  forall env pat_ok fmt_ok so name o, supported_faithful (SObj so) = true -> j2oas name (SObj so) = Ok o ->
     so_reference so = None ->
     forall ov kvs, so_object so = Some ov -> valid_oas env pat_ok fmt_ok o (JObj kvs) = true ->
                    valid_objval pat_ok (valid_js env pat_ok fmt_ok) ov (JObj kvs) = true.
 Proof. exact properties_enforced. Qed.
 
 Corollary C08_all_any_one_of_not_kept :
-  forall env pat_ok fmt_ok so name o, supported_nonull (SObj so) = true -> j2oas name (SObj so) = Ok o ->
+  forall env pat_ok fmt_ok so name o, supported_faithful (SObj so) = true -> j2oas name (SObj so) = Ok o ->
     so_reference so = None ->
     forall sb j, so_subschemas so = Some sb -> valid_oas env pat_ok fmt_ok o j = true ->
                  is_null j = false -> valid_subs (valid_js env pat_ok fmt_ok) sb j = true.
@@ -119,7 +133,7 @@ Proof. exact subschemas_enforced. Qed.
 
 (* ... and none is added or tightened *)
 Corollary C08_nothing_added :
-  forall env pat_ok fmt_ok so name o, supported_nonull (SObj so) = true -> j2oas name (SObj so) = Ok o ->
+  forall env pat_ok fmt_ok so name o, supported_faithful (SObj so) = true -> j2oas name (SObj so) = Ok o ->
     forall j, valid_js env pat_ok fmt_ok (SObj so) j = true -> valid_oas env pat_ok fmt_ok o j = true.
 Proof. exact nothing_added. Qed.
 
@@ -128,10 +142,18 @@ Proof. exact nothing_added. Qed.
    converted schema object are those of the source (this includes the null
    type) *)
 Theorem C08_annotations_kept :
-  forall b name so d k,
-    supported_with b (SObj so) = true -> j2oas name (SObj so) = Ok (OItem d k) ->
+  forall b b2 name so d k,
+    supported_with b b2 (SObj so) = true -> j2oas name (SObj so) = Ok (OItem d k) ->
     annot_oas d k = annot_js name so.
 Proof. exact annotations_kept_top. Qed.
+
+(* ... and so for every node of the schema tree, in traversal order (a [$ref]
+   node and the [true] schema carry no annotations) *)
+Theorem C08_annotations_kept_everywhere :
+  forall s name o,
+    supported s = true -> j2oas name s = Ok o ->
+    map annot_norm (annots_oas o) = map annot_norm (annots_js name s).
+Proof. exact annotations_kept_everywhere. Qed.
 
 (* Parameters (path/query): the member schema passes through
    schema_extract_description before it is converted.  Full statement: *)
@@ -156,7 +178,7 @@ Definition ex_schema : schema :=
                        [] (Some (SBool false)) None))
                None []).
 
-Example ex_supported : supported_nonull ex_schema = true.
+Example ex_supported : supported_faithful ex_schema = true.
 Proof. vm_compute. reflexivity. Qed.
 
 Example ex_converts :
@@ -187,7 +209,8 @@ Print Assumptions C08_converter_fails_exactly_on_unsupported_shapes.
 Print Assumptions C08_error_implies_unsupported.
 Print Assumptions C08_meaning_preserved_refuted.
 Print Assumptions C08_meaning_preserved.
-Print Assumptions C08_nonull_is_supported.
+Print Assumptions C08_faithful_is_supported.
+Print Assumptions C08_fractional_integer_bound_refuted.
 Print Assumptions C08_document_meaning_preserved.
 Print Assumptions C08_required_kept.
 Print Assumptions C08_enum_kept.
@@ -198,4 +221,5 @@ Print Assumptions C08_property_schemas_and_additional_properties_kept.
 Print Assumptions C08_all_any_one_of_not_kept.
 Print Assumptions C08_nothing_added.
 Print Assumptions C08_annotations_kept.
+Print Assumptions C08_annotations_kept_everywhere.
 Print Assumptions C08_parameter_annotations_refuted.
